@@ -24,7 +24,7 @@ from . import alpha
 
 MODULE_BODY = "<module>"
 CURATED = {
-    "weights": {
+    "weights": { "load_weights": ("C02",), "Dispersion.get_pars": ("C02",),
         MODULE_BODY: ("C02",),
         "Dispersion.__init__": ("C02",), "Dispersion.set_weights": ("C02",),
         "Dispersion.get_weights": ("C01", "C02", "C05", "C06", "C07", "C10", "C14",), "Dispersion._linspace": ("C01", "C02"),
@@ -47,31 +47,31 @@ CURATED = {
         "Pinhole2D.apply": ("C03", "C04"), "Slit2D.__init__": ("C03",), "Slit2D.apply": ("C03",),
     },
     "sesans": {MODULE_BODY: ("C19",), "SesansTransform.__init__": ("C19",), "SesansTransform.apply": ("C19",), "SesansTransform._set_hankel": ("C19",)},
-    "kernel": {"Kernel.Iq": ("C01", "C05", "C06", "C07", "C08", "C09", "C11", "C16",), "Kernel.Fq": ("C01", "C05", "C06", "C07", "C08", "C09", "C11", "C14", "C16",)},
-    "product": {
+    "kernel": { "KernelModel.make_kernel": ("C11",), "Kernel.release": ("C11",),"Kernel.Iq": ("C01", "C05", "C06", "C07", "C08", "C09", "C11", "C16",), "Kernel.Fq": ("C01", "C05", "C06", "C07", "C08", "C09", "C11", "C14", "C16",)},
+    "product": { "_tag_parameter": ("C07",), "ProductKernel.release": ("C11",), "ProductModel.release": ("C11",),
         MODULE_BODY: ("C07",),
         "make_extra_pars": ("C07",), "make_product_info": ("C07",), "_intermediates": ("C07",), "ProductModel.__init__": ("C07",),
         "ProductModel.make_kernel": ("C07",), "ProductKernel.__init__": ("C07", "C08"), "ProductKernel.Iq": ("C07", "C08", "C11",),
     },
-    "mixture": {
+    "mixture": { "_MixtureParts.__iter__": ("C08",), "MixtureKernel.release": ("C11",), "MixtureModel.release": ("C11",),
         MODULE_BODY: ("C08",),
         "make_mixture_info": ("C08",), "MixtureModel.__init__": ("C08",), "MixtureModel.make_kernel": ("C08",), "_intermediates": ("C08",),
         "MixtureKernel.__init__": ("C08",), "MixtureKernel.Iq": ("C08", "C11",), "_MixtureParts.__init__": ("C08",), "_MixtureParts.__next__": ("C08",),
         "_MixtureParts._part_details": ("C08",), "_MixtureParts._part_values": ("C08",),
     },
-    "direct_model": {
+    "direct_model": { "DataMixin._set_data": ("C10",), "DirectModel.simulate_data": ("C10",),
         MODULE_BODY: ("C10",),
         "call_kernel": ("C01", "C05", "C06", "C07", "C08", "C09", "C10", "C14", "C16",), "call_Fq": ("C07", "C09", "C11", "C14", "C16",), "get_mesh": ("C01", "C02", "C05", "C06", "C07", "C08", "C09", "C10", "C11", "C14", "C16",), "_pop_par_weights": ("C01", "C02", "C05", "C06", "C07", "C08", "C10", "C11", "C14",),
         "_make_sesans_transform": ("C19",), "DataMixin._interpret_data": ("C03", "C10"), "DataMixin._calc_theory": ("C03", "C07", "C10", "C11", "C19",),
         "DirectModel.__init__": ("C10",), "DirectModel.__call__": ("C10",), "_direct_calculate": ("C10",), "Iq": ("C10",), "Iqxy": ("C10",),
         "Gxi": ("C10", "C19"),
     },
-    "details": {
+    "details": { "CallDetails.pd_par": ("C01",), "CallDetails.pd_length": ("C01",), "CallDetails.pd_offset": ("C01",), "CallDetails.pd_stride": ("C01",), "CallDetails.num_eval": ("C01",), "CallDetails.num_weights": ("C01",), "CallDetails.num_active": ("C01",), "CallDetails.theta_par": ("C01", "C05",),
         MODULE_BODY: ("C01",),
         "CallDetails.__init__": ("C01", "C05", "C06", "C07",), "make_details": ("C01", "C05", "C06", "C07", "C08", "C09", "C14",), "make_kernel_args": ("C01", "C05", "C06", "C07", "C08", "C09", "C10", "C11", "C14", "C16",),
         "correct_theta_weights": ("C01", "C05",), "convert_magnetism": ("C06", "C08",), "dispersion_mesh": ("C01", "C10"),
     },
-    "kerneldll": {
+    "kerneldll": { "DllKernel.release": ("C11",), "DllModel.release": ("C11", "C18",), "DllModel.__getstate__": ("C11",), "DllModel.__setstate__": ("C11",),
         MODULE_BODY: ("C17", "C18"),
         # make_dll and compile_model are judged by the structural rules of C15/C17/C18 only: temporary-file naming, compiler
         # flags and directory handling may change without touching any property
@@ -79,12 +79,12 @@ CURATED = {
         "DllModel.__init__": ("C15", "C18"), "DllModel._load_dll": ("C15", "C18"), "DllModel.make_kernel": ("C01", "C11", "C15",),
         "DllKernel.__init__": ("C01", "C11"),
     },
-    "kernelpy": {
+    "kernelpy": { "PyModel.__init__": ("C09",), "PyKernel.release": ("C11",), "PyInput.release": ("C11",), "PyModel.release": ("C11",),
         MODULE_BODY: ("C09",),
         "PyModel.make_kernel": ("C09",), "PyInput.__init__": ("C01", "C09", "C11", "C15",), "PyKernel.__init__": ("C01", "C09", "C11",), "PyKernel._call_kernel": ("C01", "C06", "C09", "C11", "C14",),
         "_loops": ("C01", "C09", "C11", "C14",), "_create_default_functions": ("C09",), "_create_vector_Iq": ("C09",), "_create_vector_Iqxy": ("C09",),
     },
-    "sasview_model": {
+    "sasview_model": { "SasviewModel.getParamList": ("C10",), "SasviewModel.getDispParamList": ("C10",), "SasviewModel.is_fittable": ("C10",), "SasviewModel.calculate_ER": ("C10", "C14",), "SasviewModel.calculate_VR": ("C10", "C14",), "SasviewModel._dispersion_mesh": ("C10",), "SasviewModel.calc_composition_models": ("C10",), "MultiplicationModel": ("C07", "C10",), "SasviewModel.__get_state__": ("C11",), "SasviewModel.__set_state__": ("C11",), "find_model": ("C10",), "load_standard_models": ("C10",), "reset_environment": ("C11", "C17",),
         MODULE_BODY: ("C10", "C11"),
         "SasviewModel.__init__": ("C10",), "_generate_model_attributes": ("C10",), "make_model_from_info": ("C10",),
         "load_custom_model": ("C17",), "_make_standard_model": ("C10",),
@@ -92,19 +92,19 @@ CURATED = {
         "SasviewModel.runXY": ("C10",), "SasviewModel.evalDistribution": ("C10",), "SasviewModel.calculate_Iq": ("C10", "C11",),
         "SasviewModel._calculate_Iq": ("C10", "C11"), "SasviewModel.set_dispersion": ("C10",), "SasviewModel._get_weights": ("C02", "C05", "C10",),
     },
-    "bumps_model": {
+    "bumps_model": { "Experiment.residuals": ("C10",), "Experiment.nllf": ("C10",), "Experiment.numpoints": ("C10",), "Experiment.simulate_data": ("C10",), "Model.parameters": ("C10",), "Model.state": ("C10",), "Experiment.resolution": ("C10",),
         "create_parameters": ("C10",), "Model.__init__": ("C10",), "Experiment.__init__": ("C10",), "Experiment.update": ("C10",),
         "Experiment.theory": ("C10",), "Experiment.parameters": ("C10",),
     },
-    "core": {"build_model": ("C15", "C17"), "parse_dtype": ("C15",), "reparameterize": ("C16",), "load_model": ("C17",), "load_model_info": ("C17",)},
-    "generate": {
+    "core": { "merge_deps": ("C16",), "precompile_dlls": ("C17",),"build_model": ("C15", "C17"), "parse_dtype": ("C15",), "reparameterize": ("C16",), "load_model": ("C17",), "load_model_info": ("C17",)},
+    "generate": { "_kernels": ("C01", "C09", "C17",), "_search": ("C17",), "load_kernel_module": ("C17",), "read_text": ("C17",), "get_data_path": ("C17",), "_clean_source_filename": ("C17",),
         MODULE_BODY: ("C15", "C17"),
         "tag_source": ("C17",), "convert_type": ("C15",), "_convert_type": ("C15",), "_fix_tgmath_int": ("C15",), "_tag_float": ("C15",),
         "_split_translation": ("C16",), "_build_translation": ("C16",), "_build_translation_vars": ("C16",), "_build_validity_check": ("C16",),
         "find_xy_mode": ("C09",), "contains_Fq": ("C09", "C14"), "contains_shell_volume": ("C09",), "_gen_fn": ("C09",), "_call_pars": ("C09", "C16"),
         "make_source": ("C09", "C16", "C17"), "load_template": ("C17",), "model_sources": ("C17",), "_add_source": ("C17",), "kernel_name": ("C17",),
     },
-    "modelinfo": {
+    "modelinfo": { "Parameter.__init__": ("C09",), "Parameter.as_definition": ("C09", "C16",), "Parameter.as_function_argument": ("C09", "C16",), "ParameterTable._get_ref": ("C01", "C09",), "ParameterTable.user_parameters": ("C10",), "ParameterTable.set_zero_background": ("C07", "C08",), "expand_pars": ("C09", "C10",), "prefix_parameter": ("C08",), "suffix_parameter": ("C07", "C08",), "ModelInfo.get_hidden_parameters": ("C10",), "ParameterTable.__getitem__": ("C09",), "ParameterTable.__contains__": ("C09",),
         "make_parameter_table": ("C09", "C16",), "parse_parameter": ("C09", "C16",), "ParameterTable.__init__": ("C01", "C05", "C06", "C07", "C08", "C09", "C10", "C16",), "ParameterTable.check_angles": ("C05", "C09",),
         "ParameterTable.check_duplicates": ("C09",), "ParameterTable._set_vector_lengths": ("C01", "C09",), "ParameterTable._get_call_parameters": ("C01", "C06", "C07", "C08", "C09", "C16",),
         "ParameterTable._get_defaults": ("C10",), "make_model_info": ("C09", "C16",), "derive_table": ("C16",), "_insert_after": ("C16",), "_simple_insert": ("C16",),
@@ -115,12 +115,12 @@ CURATED = {
         "_pd_to_underscores": ("C20",), "_convert_pars": ("C20",), "_conversion_target": ("C20",), "_hand_convert": ("C20",), "_rename_magnetic": ("C20",),
         "_rename_magnetic_pars": ("C20",), "_rename_magnetic_angles": ("C20",), "_hand_convert_3_1_2_to_4_1": ("C20",), "convert_model": ("C20",),
     },
-    "data": {
+    "data": { "_as_numpy": ("C10",),
         "Data1D.__init__": ("C03", "C10"), "Data2D.__init__": ("C03", "C10"), "SesansData.__init__": ("C10", "C19"),
         "empty_data1D": ("C10",), "empty_data2D": ("C10",), "empty_sesans": ("C10", "C19"), "set_beam_stop": ("C10",), "set_half": ("C10",),
         "set_top": ("C10",),
     },
-    "custom/__init__": {MODULE_BODY: ("C17",), "load_custom_kernel_module": ("C17",), "load_module_from_path": ("C17",), "need_reload": ("C17",)},
+    "custom/__init__": { "_find_sources": ("C17",),MODULE_BODY: ("C17",), "load_custom_kernel_module": ("C17",), "load_module_from_path": ("C17",), "need_reload": ("C17",)},
 }
 
 _BODIES = None
